@@ -156,7 +156,7 @@ fn main() {
     );
     run.assume("other shapes of 'nb' (not trailing, or without digits) are unconstrained by the statement and only checked for losslessness");
 
-    let l = run.pick(6, 8);
+    let l = run.pick(6, 9);
     run.bound(format!("all {} strings of length <= {} over 11 characters; 18-digit revisions on 6 bases", seqs::count(CH.len(), l), l));
     seqs::par_seqs(&run, "C18", CH.len(), l, 2, |_| false, |s, t| {
         let name: String = s.iter().map(|i| CH[*i]).collect();
